@@ -481,7 +481,7 @@ func (u *Unit) condContextParts(n ast.Node) []string {
 			if child != ast.Node(s.Body) && (s.Else == nil || child != s.Else) {
 				continue
 			}
-			if isGuard(s.Cond) {
+			if isGuard(s.Cond) || u.isConjWrapper(s) {
 				continue
 			}
 			parts = append(parts, u.ctxPart(child == ast.Node(s.Body), s.Cond))
@@ -491,6 +491,9 @@ func (u *Unit) condContextParts(n ast.Node) []string {
 			}
 			cc, ok := path[i+2].(*ast.CaseClause)
 			if !ok {
+				continue
+			}
+			if s.Tag != nil && u.isConjWrapper(cc) {
 				continue
 			}
 			if s.Tag != nil {
@@ -792,4 +795,18 @@ func isOneLiner(fd *FuncDecl) bool {
 	}
 	ret, ok := fd.Decl.Body.List[0].(*ast.ReturnStmt)
 	return ok && len(ret.Results) == 1
+}
+
+// isConjWrapper: the `if` / case clause was merged into the checks it contains (conjunct form), so it is
+// not a mode condition of theirs.
+func (u *Unit) isConjWrapper(n ast.Node) bool {
+	if u.wrapperOfStmt == nil {
+		u.buildWrappers()
+	}
+	for _, w := range u.wrapperList {
+		if w.node == n {
+			return true
+		}
+	}
+	return false
 }
